@@ -44,12 +44,15 @@ def rname(used):
 for case in range(N):
     used = set()
     species = []
-    for _ in range(rnd.randint(1, 30 if rnd.random() < 0.1 else 5)):
-        els = {}
-        for e in rnd.sample(ELS, rnd.randint(1, 4)):
-            els[e] = rnd.choice([1, 2, 9, 10, 99, 100, 999, rnd.randint(1, 999)])
-        if rnd.random() < 0.2:
-            els[rnd.choice(['Ar', 'Kr'])] = 0
+    r_ = rnd.random()
+    # sizes over the whole quantifier (1-200 species), powers of two and their neighbours included
+    n_species = rnd.randint(1, 5) if r_ < 0.75 else (rnd.randint(6, 30) if r_ < 0.85 else rnd.choice([31, 32, 33, 63, 64, 65, 96, 128, 200]))
+    for _ in range(n_species):
+        pairs = [(e, rnd.choice([1, 2, 9, 10, 99, 100, 999, rnd.randint(1, 999)])) for e in rnd.sample(ELS, rnd.randint(1, 4))]
+        # zero-count entries (omitted from the file) may sit anywhere in the dictionary
+        for z in rnd.sample(['Ar', 'Kr', 'Xe'], rnd.choice([0, 0, 0, 1, 1, 2])):
+            pairs.insert(rnd.randint(0, len(pairs)), (z, 0))
+        els = dict(pairs)
         species.append(Nasa(name=rname(used), T_low=round(rnd.uniform(1, 999), 3), T_mid=round(rnd.uniform(100, 3000), 3),
                             T_high=round(rnd.uniform(1000, 9999.9), 3), a_low=np.array([coef() for _ in range(7)]),
                             a_high=np.array([coef() for _ in range(7)]), elements=els, phase=rnd.choice('GSLB'),
